@@ -37,7 +37,7 @@ ASSUMPTIONS = ["zero interest rate (interest is C06) so that the ledger knows th
                "ending in Broker.net_liquidation_value while the account is insolvent"]
 REQUIRED = ["C09:interest-ruin-reached", "C09:nonraising-valuation-is-current", "C09:insolvent-decision-trades-nothing", "C09:valuation-raises-iff-nonpositive", "C09:refused-after-end",
             "C09:reset-reenables", "C09:control-stays-solvent", "C09:exact-zero-is-insolvent"]
-REQUIRED_CATS = ["another-environment-trades-the-same-future", "a-decision-refused-earlier-in-the-episode", "second-episode-on-same-environment", "short-valued-at-zero-quote-before-rally", "scenario:interest-ruin", "broker-level:insolvent", "ruin:latent", "ruin:nonlatent", "severity:exact-zero", "severity:below", "severity:far-below", "severity:control",
+REQUIRED_CATS = ["broker-level:micro-priced-contract", "another-environment-trades-the-same-future", "a-decision-refused-earlier-in-the-episode", "second-episode-on-same-environment", "short-valued-at-zero-quote-before-rally", "scenario:interest-ruin", "broker-level:insolvent", "ruin:latent", "ruin:nonlatent", "severity:exact-zero", "severity:below", "severity:far-below", "severity:control",
                  "first-step", "later-step", "spot-long", "spot-short", "margined"]
 REQUIRED_HITS = ["Broker.transact", "Broker.rebalance", "Broker.net_liquidation_value"]
 TECHNIQUE = "runtime monitoring with fault injection: ruining price paths at every position of a step; ledger replay decides decision-time NLV; transact hook proves no trade"
@@ -82,7 +82,9 @@ def valuation_bl(ctx):
     cs = rng.sample([ETF("A"), ES(2021, 3), gen.UserFuture("F", 5.0, 0.1), gen.SpotMult("L10", 10.0), gen.UserSpot("U3", 3.0), gen.AssetFuture("AF", 20, 0.2)], rng.randint(1, 2))
     mid = {}
     for c in cs:
-        mid[c] = rng.choice([16.0, 100.0, 3000.0])
+        mid[c] = rng.choice([16.0, 100.0, 3000.0, 1e-6, 2e-7])        # (incl. micro-priced contracts: moves below 1e-7)
+        if mid[c] < 1e-3:
+            ctx.cat("broker-level:micro-priced-contract")
         ex.process_EventNBBO(EventNBBO(t, c, mid[c], mid[c]))
         led.quote(c, mid[c], mid[c])
         lev = rng.choice([-1, 1]) * rng.uniform(1.5, 4.0) / len(cs)
